@@ -52,6 +52,8 @@ type vReq struct {
 	topic  string
 	chanl  string
 	node   string
+	nargs  int  // number of query arguments (all values of all keys)
+	bad    bool // the query does not decode
 }
 
 type vCluster struct {
@@ -83,6 +85,10 @@ type vCluster struct {
 	// down (every request to them fails)
 	failGets []string
 	down     []string
+	// strict: the upstreams hold exactly `topic` with `channel` and answer by the names they read
+	// out of the request (c17_names.go): /lookup and /stats know no other topic, a change of
+	// something an upstream does not hold is answered 404
+	strict bool
 }
 
 // getFails / postFails: does a GET / POST to upstream `addr` fail?
@@ -275,11 +281,29 @@ func vProducerJSON(addr, topic string) string {
 func (u *vCluster) serve(addr string, w http.ResponseWriter, r *http.Request) {
 	q := r.URL.Query()
 	u.mu.Lock()
-	u.reqs = append(u.reqs, vReq{srv: addr, method: r.Method, path: r.URL.Path, topic: q.Get("topic"), chanl: q.Get("channel"), node: q.Get("node")})
+	rec := vReq{srv: addr, method: r.Method, path: r.URL.Path, topic: q.Get("topic"), chanl: q.Get("channel"), node: q.Get("node")}
+	for _, vs := range q {
+		rec.nargs += len(vs)
+	}
+	if _, err := url.ParseQuery(r.URL.RawQuery); err != nil {
+		rec.bad = true
+	}
+	u.reqs = append(u.reqs, rec)
 	fail := u.postFails(addr)
 	failGet := u.getFails(addr)
 	u.mu.Unlock()
 	w.Header().Set("Content-Type", "application/json")
+	if u.strict {
+		// (c17_names.go) the same server as under gosmt
+		code, doc := u.serveStrict(&rec)
+		if code != 200 {
+			w.WriteHeader(code)
+			io.WriteString(w, `{"message":"E"}`)
+			return
+		}
+		w.Write(doc)
+		return
+	}
 	if r.Method == "GET" && failGet {
 		w.WriteHeader(500)
 		io.WriteString(w, `{"message":"INTERNAL_ERROR"}`)
